@@ -29,7 +29,7 @@ def scen(rng, tier, n):
         mode = rng.choice(["conc", "conc", "seq"])
         tr = rng.choice(["tcp", "tcp", "unix"])
         nc = rng.choice([0, 1, 2, 3, 5, 8, 13, 20, 40] + ([80, 200] if tier == "thorough" else []))
-        pat = rng.choice(["burst", "trickle", "mixed"])
+        pat = rng.choice(["burst", "trickle", "mixed", "slow"])
         stop = rng.choice([1, 5, 20, 60, 150])
         out.append("srv %s %s %d %s %d %d" % (mode, tr, nc, pat, stop, rng.randrange(1, 1 << 30)))
     return out
@@ -94,11 +94,13 @@ def extra(ctx):
             f = Failure("diverge", [l, op], ["(recorded from the implementation)"], [m],
                         clause="the SocketServer model does not admit this trace of the implementation: " + m)
             f.name = "trace inclusion K(C14): lean/Driver/C14.lean acceptTrace"
+            f.has_input = False   # the oracles on the real server passed for this history: the property is no longer shown, not refuted
             fails.append(f)
     st = ctx["stats"]
     st["histories_with_trace"] = len(ops)
     st["traces_accepted_by_model"] = len([m for m in model if m == "accept"])
     st["connections_accepted_total"] = nacc
+    fails.sort(key=lambda f: not f.has_input)
     return fails[:4]
 
 
